@@ -59,7 +59,8 @@ func checkSpelling(c *h.Ctx, ap *gen.Path, txt string, clause string) bool {
 		cs.Extra = map[string]string{"abstract": want}
 	}
 	if pan != "" {
-		c.Skip("accept", "panic-is-C04")
+		// (also a C04 violation; here: a permitted spelling did not yield its tree)
+		c.Violate("accept", h.F("kind", "panic"), "a permitted spelling made Parse panic: "+firstLine(pan), cs)
 		return false
 	}
 	if err != nil {
